@@ -131,6 +131,11 @@ def result_of(res, case, nontrivial, extra_violations=()):
         counters["passes_completed"] = res.ex.passes
         for k, v in res.ex.kinds.items():
             counters["actions." + k] = v
+    # which driver modes this case exercised (evidence of what was observed)
+    for mode in ("sibling", "late", "refinalize", "probe"):
+        if case.get(mode):
+            counters["driver_mode." + mode] = 1
+    counters["driver_mode.protocol_" + case.get("protocol", "next")] = 1
     viols += contracts.drain()
     viols += list(extra_violations)
     out = {"violations": viols, "evals": evals, "counters": counters,
